@@ -224,14 +224,15 @@ PROPS["C17"] = dict(
 
 
 PROPS["C12"] = dict(
-    units=["color_opt"],
+    units=["color_opt", "flat_clone"],
     kani_quick=["std_spec_u8_count_ones"],
     trusted_base=COMMON_TRUST + [
         "S9: u8::count_ones facts (0 <= n <= 8, n == 0 <=> b == 0, n == 8 <=> b == 0xFF) - proved by the Kani harness std_spec_u8_count_ones for all 256 values, assumed in the Verus unit",
         "the renderer's per-pixel rule (glyph bit ? foreground, bright when bold and < 8 : background) is transcribed as spec fn pixel_colour from Buffer::render_to_rgba; the render loops themselves are not under contract",
     ],
     unverified_remainder=["BLOCK SLICE: only the body of the innermost cell loop of ColorOptimizer::optimize is verified (as optimize_cell); the three loops, the shape-map lookups (nested HashMap .get().unwrap(), which can panic for a cell whose font page or character has no glyph), layer.set_char and Buffer::flat_clone are dropped or replaced (O1)",
-                          "generate_shape_map (iteration over HashMaps) and Buffer::render_to_rgba are not under contract; 'compositing before optimisation equals compositing after' (flat_clone) is not decided",
+                          "generate_shape_map (iteration over HashMaps) and Buffer::render_to_rgba are not under contract",
+                          "Buffer::flat_clone(false) (unit flat_clone) is proved to copy, cell for cell, what get_char composites (up to invisible cells); its terminal-state / palette / sauce / font-table clones are dropped statements (O1), deep_layers = true is not covered",
                           "fonts narrower than 8 pixels: Block classification counts all 8 bits of a row"],
     explanation="get_shape is proved sound: Whitespace => every row of the glyph is 0, Block (8-pixel font, height rows) => every row is 0xFF. The real text of the cell rewrite in "
                 "ColorOptimizer::optimize is proved to keep the attribute flags and font page, to change the character only to ' ' and only for a Whitespace glyph when the font's own ' ' "
